@@ -291,6 +291,8 @@ def run(F, rep, tier):
             else:
                 rep.ok(r4, key, "matched (%s)" % par.get("k"))
     rep.floor(r4, "lock acquisitions in the server", nlocks, 7)
+    tck_tag_rule(F, rep)
+    shared_state_rule(F, rep)
 
 
 def reach_workspace(F, starts):
@@ -328,3 +330,106 @@ def pat_ctors(p, out=None):
         for x in p:
             pat_ctors(x, out)
     return out
+
+
+VAL = "dmntk_feel::values::Value::"
+
+
+def tck_tag_rule(F, rep):
+    """R18.5: TCK typed values round-trip only if the tables agree: the writers (Value kind -> "xsd:..." tag; there are two of them, for top-level
+    and for nested values) must give one kind the same tag, and the reader's constructor for that tag must be able to produce that kind."""
+    rid = rep.rule("R18.5", "TCK type tags: both Value->DTO writers give a kind the same xsd tag, and the DTO->Value reader builds that kind from that tag")
+    writers = {}
+    reader = {}
+    for n, h in F.hir.items():
+        if not h["_crate"].startswith("dmntk_server"):
+            continue
+        for m, _ in find_hir(h["body"], lambda x: x.get("k") == "Match" and x.get("src") == "Normal"):
+            for arm in m["arms"]:
+                pc = pat_ctors(arm["p"])
+                kinds = sorted({c[len(VAL):] for c in pc if isinstance(c, str) and c.startswith(VAL)})
+                tags = sorted({x.get("v") for x, _ in find_hir(arm["b"], lambda x: x.get("k") == "Lit" and isinstance(x.get("v"), str) and x["v"].startswith("xsd:"))})
+                if kinds and tags:
+                    for k in kinds:
+                        writers.setdefault(n, {}).setdefault(k, set()).update(tags)
+                lits = lit_strings(arm["p"])
+                ctor = [c.get("callee") for c, _ in find_hir(arm["b"], lambda x: x.get("k") == "Call" and "::try_from_xsd_" in (x.get("callee") or ""))]
+                direct = sorted({(x.get("callee") or x.get("path") or "") for x, _ in find_hir(arm["b"], lambda x: x.get("k") in ("Call", "Path") and (x.get("callee") or x.get("path") or "").startswith(VAL))})
+                for t in lits:
+                    if t.startswith("xsd:") and (ctor or direct):
+                        reader[t] = ctor[0] if ctor else direct[0]
+    rep.floor(rid, "Value -> DTO writer tables", len(writers), 2)
+    rep.floor(rid, "xsd tags understood by the reader", len(reader), 8)
+    produced = {}
+    for t, fn in reader.items():
+        if fn.startswith(VAL) and "::try_from_xsd_" not in fn:
+            produced[t] = {fn[len(VAL):]}
+            continue
+        h = F.hir.get(fn)
+        if h is None:
+            rep.missing_anchor(rid, fn)
+            continue
+        ks = {(x.get("callee") or x.get("path") or "")[len(VAL):] for x, _ in find_hir(h["body"], lambda x: x.get("k") in ("Call", "Path") and (x.get("callee") or x.get("path") or "").startswith(VAL))}
+        produced[t] = ks - {"Null"}
+    by_kind = {}
+    for w, tab in sorted(writers.items()):
+        for k, tags in sorted(tab.items()):
+            key = "tag:writer%d:%s" % (sorted(writers).index(w), k)
+            if len(tags) != 1:
+                rep.violation(rid, key, "%s writes kind %s with several tags %s" % (w, k, sorted(tags)), "server/src/dto.rs")
+                continue
+            t = list(tags)[0]
+            by_kind.setdefault(k, set()).add(t)
+            if t not in reader:
+                rep.violation(rid, key, "kind %s is written with tag %s which the reader does not understand" % (k, t), "server/src/dto.rs")
+            elif k not in produced.get(t, set()):
+                rep.violation(rid, key, "kind %s is written with tag %s, but the reader builds %s from that tag (%s): a %s sent back to the service does not round-trip"
+                              % (k, t, sorted(produced.get(t, [])), reader[t].split("::")[-1], k), "server/src/dto.rs")
+            else:
+                rep.ok(rid, key, "%s <-> %s via %s" % (k, t, reader[t].split("::")[-1]))
+    for k, tags in sorted(by_kind.items()):
+        if len(tags) > 1:
+            rep.violation(rid, "tag:agree:%s" % k, "the two writers disagree on the tag of kind %s: %s" % (k, sorted(tags)), "server/src/dto.rs")
+
+
+def lit_strings(p, out=None):
+    if out is None:
+        out = []
+    if isinstance(p, dict):
+        if p.get("k") == "Lit" and isinstance(p.get("v"), str):
+            out.append(p["v"])
+        for v in p.values():
+            if isinstance(v, (dict, list)):
+                lit_strings(v, out)
+    elif isinstance(p, list):
+        for x in p:
+            lit_strings(x, out)
+    return out
+
+
+def shared_state_rule(F, rep):
+    """R18.6: all requests act on one workspace: the application data holding the RwLock<Workspace> is created once, outside the closure handed to
+    HttpServer::new (actix calls that factory once per worker thread; state built inside it is private to the worker)."""
+    rid = rep.rule("R18.6", "one workspace for all workers: the shared application data is created outside the per-worker App factory")
+    h = F.hir.get("dmntk_server::server::start_server")
+    if h is None:
+        rep.missing_anchor(rid, "dmntk_server::server::start_server")
+        return
+    facs = [c for c, _ in find_hir(h["body"], lambda x: x.get("k") == "Call" and (x.get("callee") or "").endswith("HttpServer::<F, I, S, B>::new") or
+                                   (x.get("k") == "Call" and "HttpServer" in (x.get("callee") or "") and (x.get("callee") or "").endswith("::new")))]
+    if not facs:
+        rep.missing_anchor(rid, "HttpServer::new in start_server")
+        return
+    made_outside = [c for c, par in find_hir(h["body"], lambda x: x.get("k") == "Call" and ((x.get("callee") or "").endswith("RwLock::<T>::new") or "Workspace::new" in (x.get("callee") or "")))]
+    inside = []
+    for fc in facs:
+        for clo in [a for a in fc.get("args", []) if strip(a).get("k") == "Closure"]:
+            inside += [c for c, _ in find_hir(strip(clo)["body"], lambda x: x.get("k") == "Call" and ((x.get("callee") or "").endswith("RwLock::<T>::new") or "Workspace::new" in (x.get("callee") or "")
+                                                                                                       or ((x.get("callee") or "").endswith("Data::<T>::new"))))]
+    if inside:
+        rep.violation(rid, "factory", "start_server builds %s inside the closure passed to HttpServer::new: every worker thread gets its own workspace, so a model added through one connection "
+                      "is unknown to requests served by another worker" % sorted({(c.get("callee") or "").split("::")[-3] + "::new" for c in inside}), "%s:%s" % (h["file"], inside[0].get("l")))
+    elif not made_outside:
+        rep.missing_anchor(rid, "creation of the RwLock<Workspace> in start_server")
+    else:
+        rep.ok(rid, "factory", "RwLock<Workspace> is created once in start_server and cloned (Arc) into every worker's App")
